@@ -67,6 +67,25 @@ pub const ALPHABET: &[&str] = &[
     /* 22 */ "l =('%list<'int>)m, m",
 ];
 
+/// The first CORE_LINES lines of the alphabet are its core (the lines of the first version of this
+/// check). Histories of up to WIDE_LEN lines range over the whole alphabet; longer ones (up to the
+/// tier's maximum) over the core only — breadth at the lengths where almost every REPL defect
+/// shows, depth where the interactions are densest, and a universe that the quick tier finishes.
+const CORE_LINES: usize = 16;
+static WIDE_LEN: std::sync::atomic::AtomicUsize = std::sync::atomic::AtomicUsize::new(3);
+
+fn in_universe(prefix: &[u8], c: u8) -> bool {
+    let wide = WIDE_LEN.load(std::sync::atomic::Ordering::Relaxed);
+    prefix.len() + 1 <= wide || (prefix.iter().all(|x| (*x as usize) < CORE_LINES) && (c as usize) < CORE_LINES)
+}
+
+fn universe_size(max_len: usize) -> u64 {
+    let wide = WIDE_LEN.load(std::sync::atomic::Ordering::Relaxed);
+    (1..=max_len)
+        .map(|d| if d <= wide { (ALPHABET.len() as u64).pow(d as u32) } else { (CORE_LINES as u64).pow(d as u32) })
+        .sum()
+}
+
 /// A top-level tail call on a REPL line (no one-piece counterpart: in one program it ends the
 /// program). Judged differentially by `tail_call_pass`.
 const TAIL_DEF: &str = "g = #'int { =0 => 9 | [~, 1] __integer_subtract__ ^ }";
@@ -1049,19 +1068,20 @@ impl Dfs<'_> {
     /// Visit every child of `node`; `own` is a session already in `node`'s state (used for the last
     /// child, the others get a replayed one).
     fn children(&mut self, node: &Node, own: Sess) -> Result<(), String> {
-        let n = ALPHABET.len();
+        // histories of the full length use the core lines only (see CORE_LINES)
+        let candidates: Vec<usize> = (0..ALPHABET.len()).filter(|c| in_universe(&node.hist, *c as u8)).collect();
         let mut own = Some(own);
-        for c in 0..n {
+        for (k, c) in candidates.iter().enumerate() {
             if self.budget.exhausted() {
                 self.capped = true;
                 break;
             }
-            let sess = if c + 1 == n {
+            let sess = if k + 1 == candidates.len() {
                 own.take().unwrap()
             } else {
                 self.replay_to(node)?
             };
-            self.visit(node, c as u8, sess)?;
+            self.visit(node, *c as u8, sess)?;
         }
         if let Some(s) = own {
             s.close();
@@ -1713,6 +1733,7 @@ pub fn run(tier: Tier) -> Result<Report, String> {
 fn run_inner(tier: Tier) -> Result<Report, String> {
     let thorough = tier == Tier::Thorough;
     let max_len = if thorough { 5 } else { 4 };
+    WIDE_LEN.store(if thorough { 4 } else { 3 }, std::sync::atomic::Ordering::Relaxed);
     // separate budgets so that a slow part A cannot starve the corpus
     // C11_BUDGET_SCALE (testing on a loaded machine only) stretches the wall-clock caps
     let scale: f64 = std::env::var("C11_BUDGET_SCALE").ok().and_then(|s| s.parse().ok()).unwrap_or(1.0);
@@ -1755,7 +1776,7 @@ fn run_inner(tier: Tier) -> Result<Report, String> {
     let mut states = a.out.states.clone();
     states.extend(b.states.iter().copied());
     let histories: u64 = a.out.by_depth.values().sum();
-    let expected_histories: u64 = (1..=max_len).map(|d| (ALPHABET.len() as u64).pow(d as u32)).sum();
+    let expected_histories: u64 = universe_size(max_len);
     let caps_hit = a.capped_slices > 0 || b.capped > 0;
     let mut kinds = a.out.counters.kinds.clone();
     for (k, v) in &b.counters.kinds {
@@ -1782,6 +1803,8 @@ fn run_inner(tier: Tier) -> Result<Report, String> {
         "caps_hit": if caps_hit { json!({"alphabet_slices_skipped_or_cut": a.capped_slices, "of": a.slices, "corpus_cuts_skipped": b.capped, "budget_s": {"alphabet": if thorough {480} else {16}, "corpus": if thorough {120} else {8}}}) } else { J::Null },
         "alphabet": ALPHABET,
         "max_history_length": max_len,
+        "max_history_length_over_the_whole_alphabet": WIDE_LEN.load(std::sync::atomic::Ordering::Relaxed),
+        "core_lines": CORE_LINES,
         "histories": {"visited": histories, "universe": expected_histories, "by_length": a.out.by_depth,
             "note": "histories whose prefix killed the session (runtime error) are not extended; none of the alphabet's lines can raise one"},
         "line_outcomes": kinds,
